@@ -90,6 +90,54 @@ fn c19_roll_slice_forms_l9() {
     kani::cover!(n == 8);
 }
 
+/// the slice form on a buffer of the FIXED length 8 (one more than the window) from an arbitrary
+/// state: same fields as eight single-byte updates.  (Cheap companion of the query above: no
+/// symbolic length.)
+fn c19_roll_slice_fixed8(field: u8) {
+    let start = any_state();
+    let buf: [u8; 8] = kani::any();
+    let mut a = start;
+    let mut i = 0;
+    while i < 8 {
+        a.update_by_byte(buf[i]);
+        i += 1;
+    }
+    let mut b = start;
+    b.update(&buf);
+    let (fa, fb) = (test_utils::verif_fields(&a), test_utils::verif_fields(&b));
+    // one field per query: with all fields in one query a change that breaks one field and makes
+    // the proof of another hard would time out instead of returning its counterexample
+    match field {
+        0 => assert!(fa.0 == fb.0),
+        1 => assert!(fa.1 == fb.1),
+        2 => assert!(fa.2 == fb.2),
+        3 => assert!(fa.3 == fb.3),
+        _ => {
+            let mut k = 0;
+            while k < 7 {
+                assert!(fa.4[k] == fb.4[k]);
+                k += 1;
+            }
+        }
+    }
+    kani::cover!(fa.0 != 0);
+}
+#[kani::proof]
+#[kani::unwind(11)]
+fn c19_roll_slice_fixed8_f0() { c19_roll_slice_fixed8(0) }
+#[kani::proof]
+#[kani::unwind(11)]
+fn c19_roll_slice_fixed8_f1() { c19_roll_slice_fixed8(1) }
+#[kani::proof]
+#[kani::unwind(11)]
+fn c19_roll_slice_fixed8_f2() { c19_roll_slice_fixed8(2) }
+#[kani::proof]
+#[kani::unwind(11)]
+fn c19_roll_slice_fixed8_f3() { c19_roll_slice_fixed8(3) }
+#[kani::proof]
+#[kani::unwind(11)]
+fn c19_roll_slice_fixed8_f4() { c19_roll_slice_fixed8(4) }
+
 /// From new(): after k <= K bytes the value equals the definition over the trailing window
 /// (zero padded), i.e. depends only on the last seven bytes.  (Base case of the inductive
 /// SMT obligation; CBMC is slow on this arithmetic, hence the ladder of K.)
